@@ -39,7 +39,7 @@ ASSUMPTIONS = [
 ]
 
 FAMILIES_QUICK = [("edits", 10, {}), ("tamper", 10, {}), ("cutoff", 6, {}), ("alias", 5, {}), ("nocache", 4, {}),
-                  ("edits", 5, {"minimal": True}), ("tamper", 4, {"minimal": True})]
+                  ("edits", 4, {"minimal": True}), ("wipe", 5, {}), ("wipe", 4, {"minimal": True})]
 FAMILIES_THOROUGH = [(f, n * 15, kw) for f, n, kw in FAMILIES_QUICK]
 
 SIG_GLOBOUT = "noop-rebuild-executes:input-glob-matches-dependency-output"
